@@ -188,12 +188,12 @@ Section DemeRun.
 
   Lemma pop_loop_sim gens : forall fuel g m p evs r s1 rest,
     kind_of c (LVL m) = KPop -> gens = gens_of c (LVL m) -> g < gens ->
-    while_ fuel (fun g => ret (g <? gens)) (pop_body c d) g (mk m p) evs = Some (r, s1, rest) ->
+    while_ fuel (gens_cond c d) (pop_body c d) g (mk m p) evs = Some (r, s1, rest) ->
     exists used m', evs = used ++ rest /\ s1 = mk m' p /\ shape m' = shape m /\
       run c (AT m g SGen) used = Some (if snd r then finish c t m' else AT (app_meta d m') (fst r) SLsc).
   Proof.
     induction fuel as [|f IH]; intros g m p evs r s1 rest K G Hg H; [discriminate|].
-    cbn [while_] in H. apply bind_inv in H as (b & sa & ea & Hc & H). apply ret_inv in Hc. injection Hc as -> -> ->.
+    cbn [while_] in H. apply bind_inv in H as (b & sa & ea & Hc & H). unfold gens_cond, r_generations, deme_of, bind, ret in Hc. cbn [ms mk] in Hc. fold (lvl d m) in Hc. rewrite <- G in Hc. injection Hc as <- <- <-.
     assert (E : g <? gens = true) by (apply Nat.ltb_lt; lia). rewrite E in H. clear E.
     apply bind_inv in H as (rb & sb & eb & Hb & H). unfold pop_body in Hb.
     apply bind_inv in Hb as ([] & s2 & e2 & Hi & Hb). apply p_iter_inv in Hi as (n & -> & ->).
@@ -218,7 +218,7 @@ Section DemeRun.
         * rewrite lvl_seen_or, lvl_gen_st. exact K.
         * now rewrite lvl_seen_or, lvl_gen_st.
       + destruct f as [|f']; [discriminate|]. cbn [while_] in H. apply bind_inv in H as (b & sa & ea & Hc & H).
-        apply ret_inv in Hc. injection Hc as -> -> ->.
+        unfold gens_cond, r_generations, deme_of, bind, ret in Hc. cbn [ms mk] in Hc. fold (lvl d (seen_or (gen_st m d n) false)) in Hc. rewrite lvl_seen_or, lvl_gen_st, <- G in Hc. injection Hc as <- <- <-.
         assert (E : S g <? gens = false) by (apply Nat.ltb_ge; lia). rewrite E in H. clear E. apply ret_inv in H. injection H as -> -> ->.
         exists [EGen n; EGsc false]. eexists. split; [reflexivity|]. split; [reflexivity|]. split; [now rewrite shape_seen_or, shape_gen_st|].
         cbn [snd fst]. rewrite run_cons, step_gen by congruence. rewrite run_cons, SG. reflexivity.
@@ -229,10 +229,9 @@ Section DemeRun.
     run_pop c fuel d (mk m p) evs = Some (tt, s1, rest) ->
     exists used m', evs = used ++ rest /\ s1 = mk m' p /\ shape m' = shape m /\ run c (AT m 0 SGen) used = Some (finish c t m').
   Proof.
-    intros K G H. unfold run_pop in H. apply bind_inv in H as (gens & sa & ea & Hr & H).
-    unfold r_generations, deme_of in Hr. cbn [ms mk] in Hr. injection Hr as <- <- <-.
+    intros K G H. unfold run_pop in H.
     apply bind_inv in H as (r & sb & eb & Hl & H).
-    apply pop_loop_sim in Hl as (used & m' & -> & -> & L & R); auto.
+    apply (pop_loop_sim (gens_of c (LVL m))) in Hl as (used & m' & -> & -> & L & R); auto.
     destruct (snd r).
     - apply ret_inv in H. injection H as -> ->. exists used, m'. auto.
     - apply bind_inv in H as ([] & s2 & e2 & Ha & H). unfold p_append_meta in Ha. injection Ha as <- <-.
@@ -260,12 +259,12 @@ Section DemeRun.
 
   Lemma cma_loop_sim gens : forall fuel g m p evs r s1 rest,
     kind_of c (LVL m) = KCma -> gens = gens_of c (LVL m) -> g < gens ->
-    while_ fuel (fun g => ret (g <? gens)) (cma_body c d) g (mk m p) evs = Some (r, s1, rest) ->
+    while_ fuel (gens_cond c d) (cma_body c d) g (mk m p) evs = Some (r, s1, rest) ->
     exists used m', evs = used ++ rest /\ s1 = mk m' p /\ shape m' = shape m /\
       run c (AT m g SGen) used = Some (if snd r then finish c t m' else AT (app_meta d m') (fst r) SLsc).
   Proof.
     induction fuel as [|f IH]; intros g m p evs r s1 rest K G Hg H; [discriminate|].
-    cbn [while_] in H. apply bind_inv in H as (b & sa & ea & Hc & H). apply ret_inv in Hc. injection Hc as -> -> ->.
+    cbn [while_] in H. apply bind_inv in H as (b & sa & ea & Hc & H). unfold gens_cond, r_generations, deme_of, bind, ret in Hc. cbn [ms mk] in Hc. fold (lvl d m) in Hc. rewrite <- G in Hc. injection Hc as <- <- <-.
     assert (E : g <? gens = true) by (apply Nat.ltb_lt; lia). rewrite E in H. clear E.
     apply bind_inv in H as (rb & sb & eb & Hb & H). unfold cma_body in Hb.
     apply bind_inv in Hb as ([] & s2 & e2 & Hi & Hb). apply p_iter_inv in Hi as (n & -> & ->).
@@ -301,7 +300,7 @@ Section DemeRun.
           split; [now rewrite L, shape_seen_or, shape_gen_st|].
           rewrite run_cons, step_gen by congruence. rewrite run_cons, SG. rewrite run_cons, SC. exact R.
         * destruct f as [|f']; [discriminate|]. cbn [while_] in H. apply bind_inv in H as (b & sa & ea & Hc & H).
-          apply ret_inv in Hc. injection Hc as -> -> ->.
+          unfold gens_cond, r_generations, deme_of, bind, ret in Hc. cbn [ms mk] in Hc. fold (lvl d (seen_or (gen_st m d n) false)) in Hc. rewrite lvl_seen_or, lvl_gen_st, <- G in Hc. injection Hc as <- <- <-.
           assert (E : S g <? gens = false) by (apply Nat.ltb_ge; lia). rewrite E in H. clear E. apply ret_inv in H. injection H as -> -> ->.
           exists [EGen n; EGsc false; ECma false]. eexists. split; [reflexivity|]. split; [reflexivity|].
           split; [now rewrite shape_seen_or, shape_gen_st|].
@@ -313,10 +312,9 @@ Section DemeRun.
     run_cma c fuel d (mk m p) evs = Some (tt, s1, rest) ->
     exists used m', evs = used ++ rest /\ s1 = mk m' p /\ shape m' = shape m /\ run c (AT m 0 SGen) used = Some (finish c t m').
   Proof.
-    intros K G H. unfold run_cma in H. apply bind_inv in H as (gens & sa & ea & Hr & H).
-    unfold r_generations, deme_of in Hr. cbn [ms mk] in Hr. injection Hr as <- <- <-.
+    intros K G H. unfold run_cma in H.
     apply bind_inv in H as (r & sb & eb & Hl & H).
-    apply cma_loop_sim in Hl as (used & m' & -> & -> & L & R); auto.
+    apply (cma_loop_sim (gens_of c (LVL m))) in Hl as (used & m' & -> & -> & L & R); auto.
     destruct (snd r).
     - apply ret_inv in H. injection H as -> ->. exists used, m'. auto.
     - apply bind_inv in H as ([] & s2 & e2 & Ha & H). unfold p_append_meta in Ha. injection Ha as <- <-.
